@@ -533,6 +533,50 @@ def resave_case(ctx, h, tmp):
             return
 
 
+def falsy_id_case(ctx, k, tmp):
+    """the target of a cross-resource reference is named by its id attribute, and the id is a value Python takes for
+    false (0, 0.0 for a nullable numeric id whose default is None): the reference still reaches that object"""
+    from pyecore import ecore as E
+    from pyecore.resources import ResourceSet, URI
+    from pyecore.resources.json import JsonResource
+    fmt = 'xmi' if k % 2 == 0 else 'json'
+    t, zero = [(E.EIntegerObject, 0), (E.ELongObject, 0), (E.EDoubleObject, 0.0)][(k // 2) % 3]
+    pk = E.EPackage('fid', f'http://verif/c14/fid{k}', 'fid')
+    A = E.EClass('A')
+    pk.eClassifiers.append(A)
+    A.eStructuralFeatures.extend([E.EAttribute('key', t, iD=True), E.EAttribute('name', E.EString), E.EReference('one', A),
+                                  E.EReference('many', A, upper=-1), E.EReference('kids', A, upper=-1, containment=True)])
+    d = os.path.join(tmp, f'fid{k}')
+    os.makedirs(d)
+
+    def rs():
+        r = ResourceSet()
+        r.resource_factory['json'] = lambda uri: JsonResource(uri)
+        r.metamodel_registry[pk.nsURI] = pk
+        return r
+    w = rs()
+    ra, rb = w.create_resource(URI(os.path.join(d, f'a.{fmt}'))), w.create_resource(URI(os.path.join(d, f'b.{fmt}')))
+    a, b = A(name='a'), A(name='b', key=type(zero)(7))
+    z = A(name='zero', key=zero)
+    b.kids.extend([A(name='other', key=type(zero)(3)), z])
+    ra.append(a); rb.append(b)
+    a.one = z
+    a.many.extend([b, z])
+    ctx.evaluations += 1
+    ctx.count(f'falsy-id/{fmt}/{t.name}')
+    ctx.nontriv(('falsy-id', k))
+    try:
+        ra.save(); rb.save()
+        la = rs().get_resource(URI(os.path.join(d, f'a.{fmt}'))).contents[0]
+        got = (la.one.name, [x.name for x in la.many])
+    except Exception as e:
+        got = f'raised {type(e).__name__}: {str(e)[:80]}'
+    if got != ('zero', ['b', 'zero']):
+        ctx.violate({'clause': 'wrong-target', 'format': fmt, 'trigger': 'none', 'falsy_id': True},
+                    f'wrong-target: a {fmt} reference to an object of another file whose id ({t.name}) is {zero!r}: following it gives {got}',
+                    {'case': k, 'falsy_id': True, 'format': fmt})
+
+
 def moved_case(ctx, h, tmp):
     """a resource is given another URI (`res.uri = ...`: another file name, another directory) after the references across
     the files exist and before anything is saved: the resource set knows it under the new URI only, the files are written
@@ -558,6 +602,16 @@ def moved_case(ctx, h, tmp):
            'deeper': os.path.join(d, 'down', 'below', b)}[where]
     os.makedirs(os.path.dirname(new), exist_ok=True)
     rep = {'case': h, 'moved': True, 'format': fmt, 'where': where}
+    # every other case: everything has been saved once where it was (what is remembered from a save must not outlive a move)
+    presaved = h % 2 == 1
+    if presaved:
+        try:
+            for p in paths:
+                rset.resources[URI(p).normalize()].save()
+        except Exception as e:
+            ctx.count('moved/presave-raised/' + type(e).__name__)
+            return
+        rep['saved_before_the_move'] = True
     old_key = URI(paths[k]).normalize()
     try:
         res.uri = URI(new) if rng.random() < .5 else new
@@ -566,7 +620,7 @@ def moved_case(ctx, h, tmp):
                     f'moved-raised: giving a resource of a resource set another URI raised {type(e).__name__}: {e}', rep)
         return
     ctx.evaluations += 1
-    ctx.count(f'moved/{fmt}/{where}')
+    ctx.count(f'moved/{fmt}/{where}' + ('/saved-before' if presaved else ''))
     ctx.nontriv(('moved', h))
     keys = list(rset.resources)
     if old_key in keys or URI(new).normalize() not in keys or rset.resources[URI(new).normalize()] is not res \
@@ -582,7 +636,7 @@ def moved_case(ctx, h, tmp):
     try:
         for p in newpaths:
             rset.resources[URI(p).normalize()].save()
-        if os.path.exists(paths[k]):
+        if os.path.exists(paths[k]) and not presaved:
             ctx.violate({'clause': 'moved-registry', 'format': fmt, 'trigger': 'none'},
                         'moved-registry: a resource saved after it had been given another URI wrote to the old location', rep)
             return
@@ -632,6 +686,8 @@ def run(ctx):
             resave_case(ctx, h, tmp)
         for h in range(n // 5):
             moved_case(ctx, h, tmp)
+        for k in range(12 if ctx.quick() else 60):
+            falsy_id_case(ctx, k, tmp)
         for k in range(6):
             alias_case(ctx, tmp, 'xmi' if k % 2 == 0 else 'json', k)
         path_correspondence(ctx)
